@@ -108,10 +108,10 @@ def run_case(item):
     from adcgen.generate_code.contraction import Contraction
     hyper = rng.random() < 0.35
     spin = rng.random() < 0.25           # spin-labelled indices, target_spin given
-    g = TermGen(rng, spaces="ov", spin=spin, n_tensors=(2, 4) if not spin else (2, 3),
+    g = TermGen(rng, spaces="ov", spin=spin, n_tensors=rng.choice([(1, 1), (2, 4), (2, 4), (2, 4)]) if not spin else (1, 3),
                 max_contracted=5 if not spin else 3, max_target=4 if not spin else 3,
                 names=["V", "f", "t1", "t2", "Y", "X", "c", "b", "d0"], exclude=(),
-                exponents=0.1, deltas=(0, 1), symbols=0.2, pool_size=4 if hyper else 6)
+                exponents=0.2, deltas=(0, 1), symbols=0.2, pool_size=4 if hyper else 6)
     try:
         term = g.term()
     except RuntimeError:
